@@ -18,7 +18,7 @@ def main():
         return
     try:
         r = llsym.analyze(req['ir'], req['fn'], req['nbytes'], req['unwind'], req['timeout_s'], covers=req.get('covers', ()),
-                          extra_queries=req.get('extra'), fixed=req.get('fixed'))
+                          extra_queries=req.get('extra'), fixed=req.get('fixed'), smt_dump=req.get('smt_dump'))
     except (llsym.Unsupported, llsym.MemError) as e:
         r = {'harness': req['fn'], 'error': 'unsupported by the encoder: %s' % e, 'queries': []}
     except MemoryError:
